@@ -19,11 +19,10 @@
   `deep r v` is "format the value `v` (recursively when `r`)": for the real formatter it is
   `_get_formatted_iterable(v, …, is_recursive = r)`.
 
-  Known deviation of the code (finding, see Props/C08.lean `single_conversion_formats_converted_text`):
-  for a single expression with a conversion and neither `rf`/`ff` nor an enclosing recursive format
-  the code converts first and then formats the *converted text* (`'{d!s}'` with `d = {}` parses the
-  text `{}` as a field and raises), where this spec formats the object and converts the result — as
-  the code itself does under `:rf`.
+  History: before /repo commit db7f4e2 the code converted a single expression *before* its default
+  recursion and so formatted the converted text (`'{d!s}'` with `d = {}` raised TypeError); this spec
+  always said "format the object, then convert". Props/C08.lean keeps the old ordering as a labelled
+  witness (`single_conversion_formats_converted_text_pre_fix`).
 
   Error precedence: like the code (and unlike `str.format`) all expressions are resolved before the
   first `format()` call, so a lookup error in a later expression wins over a format-spec error in
@@ -57,11 +56,21 @@ def isFf (spec : List Char) : Bool := spec.take 2 = ['f', 'f']
 /-- the format spec proper: what follows a leading `rf` / `ff` -/
 def specBody (spec : List Char) : List Char := if isRf spec || isFf spec then spec.drop 2 else spec
 
-/-- The object an expression stands for. -/
-def fieldObj (deep : Bool → Val → Except Exc Val) (ctx : Ctx) (isRec : Bool) (f : FieldT) : Except Exc Val := do
+/-- The object an expression of a mixed string stands for, and the conversion still pending on it:
+    `:rf` (or an enclosing recursive format, unless `:ff`) formats the referenced object recursively
+    and converts the result; `:ff` converts the object as it is; a plain expression is converted
+    when the text is put together (which only matters for which error comes first). -/
+def fieldObj (deep : Bool → Val → Except Exc Val) (ctx : Ctx) (isRec : Bool) (f : FieldT) :
+    Except Exc (Val × Option Char) := do
   let obj ← getField ctx f.name
-  let obj ← if isRf f.spec || (isRec && !isFf f.spec) then deep true obj else pure obj
-  convertField obj f.conv
+  if isRf f.spec || (isRec && !isFf f.spec) then do
+    let o ← deep true obj
+    let o ← convertField o f.conv
+    pure (o, none)
+  else if isFf f.spec then do
+    let o ← convertField obj f.conv
+    pure (o, none)
+  else pure (obj, f.conv)
 
 /-- A string that is exactly one expression: the referenced object itself, recursively formatted
     (unless `:ff`), then converted if a conversion is given, and turned into text only by a format
@@ -76,24 +85,26 @@ def formatSingle (deep : Bool → Val → Except Exc Val) (ctx : Ctx) (isRec : B
     pure (.str (String.ofList t))
 
 /-- phase 1 of a mixed string: resolve every expression, left to right -/
-def resolve (deep : Bool → Val → Except Exc Val) (ctx : Ctx) (isRec : Bool) : List Part → Except Exc (List (List Char ⊕ (Val × List Char)))
+def resolve (deep : Bool → Val → Except Exc Val) (ctx : Ctx) (isRec : Bool) :
+    List Part → Except Exc (List (List Char ⊕ (Val × Option Char × List Char)))
   | [] => pure []
   | .lit t :: ps => do
     let rest ← resolve deep ctx isRec ps
     pure (.inl t :: rest)
   | .fld f :: ps => do
-    let obj ← fieldObj deep ctx isRec f
+    let (obj, pending) ← fieldObj deep ctx isRec f
     let rest ← resolve deep ctx isRec ps
-    pure (.inr (obj, specBody f.spec) :: rest)
+    pure (.inr (obj, pending, specBody f.spec) :: rest)
 
-/-- phase 2: the text -/
-def render : List (List Char ⊕ (Val × List Char)) → Except Exc (List Char)
+/-- phase 2: the text — `format(convert(object), spec)` of every expression between the literals -/
+def render : List (List Char ⊕ (Val × Option Char × List Char)) → Except Exc (List Char)
   | [] => pure []
   | .inl t :: rs => do
     let rest ← render rs
     pure (t ++ rest)
-  | .inr (obj, spec) :: rs => do
-    let t ← formatField obj spec
+  | .inr (obj, pending, spec) :: rs => do
+    let o ← convertField obj pending
+    let t ← formatField o spec
     let rest ← render rs
     pure (t ++ rest)
 
